@@ -235,7 +235,15 @@ def ctl_extract(t):
             eis = [e for e in p["ei"] if e["phase"] == "poll"]
             ob["ei_inputs_bad"] = None
             if not t.get("ei_script"):
-                for e in eis[:n]:
+                if it["start"]["unc"] > 0:
+                    # noisy modes (declared, specified or auto-detected): success is judged on the GP estimate at the polled point, which
+                    # carries a positive predictive SD; a zero SD means the raw observation was used
+                    for e in eis[:n]:
+                        if e["s_new"] is None or e["s_new"] == 0:
+                            ob["ei_inputs_bad"] = ("judged_on_gp_estimate", f"noisy run (uncertainty level {it['start']['unc']}): a poll improvement was computed from (f_new, s_new)=({e['f_new']}, {e['s_new']}), "
+                                                   "i.e. from the raw observation instead of the GP estimate at the polled point")
+                            break
+                for e in (eis[:n] if ob["ei_inputs_bad"] is None else []):
                     if e["f_base"] != p["pre"]["fval"] or (e["s_base"] is not None and e["s_base"] != p["pre"]["fsd"]):
                         ob["ei_inputs_bad"] = ("improvement_inputs", f"poll improvement computed against ({e['f_base']}, {e['s_base']}) but the incumbent estimate at poll start is ({p['pre']['fval']}, {p['pre']['fsd']})")
                         break
@@ -845,7 +853,7 @@ def _c05_predicates(rep, t, x, case, tag):
             rep.violation("final_calls_at_x", "bads.py:final re-sampling", f"the last {nfs} target calls are not unrecorded calls at the returned x ({len(tail)} trailing unrecorded calls); {tag}", case)
             return
         yv = list(np.asarray(fin["yval_vec"], dtype=float).reshape(-1)) if fin["yval_vec"] is not None else None
-        fresh = [c["ret"][0] for c in tail]
+        fresh = [(c["tret"][0] if c.get("tret") else c["ret"][0]) for c in tail]         # the values as the target itself returned them
         if yv is None or yv[: len(fresh)] != fresh:
             rep.violation("yval_vec", "bads.py:final re-sampling", f"yval_vec {yv} does not consist of the fresh observations {fresh}; {tag}", case)
             return
@@ -862,7 +870,7 @@ def _c05_predicates(rep, t, x, case, tag):
             rep.violation("fval_mean_fsd_sem", "bads.py:final re-sampling", f"fval={res['fval']} fsd={res['fsd']} but mean/SEM of yval_vec = {m}/{sem}; {tag}", case)
         if sp["mode"] == "he":
             ysd = list(np.asarray(fin["ysd_vec"], dtype=float).reshape(-1)) if fin["ysd_vec"] is not None else None
-            rsd = [c["ret"][1] for c in tail]
+            rsd = [(c["tret"][1] if c.get("tret") else c["ret"][1]) for c in tail]      # the SDs as the target itself reported them
             if ysd is None or ysd[: len(rsd)] != rsd:
                 rep.violation("ysd_vec", "bads.py:final re-sampling", f"ysd_vec {ysd} does not hold the SDs the target reported {rsd}; {tag}", case)
             elif nfs == 1:
@@ -1065,5 +1073,130 @@ def det_replay(ctx, rep):
                 obsv = (t["log"]["func_count"] - len(x["tail_calls"]), f["msi"], True, enc_pt(f["u"]), enc(t["result"]["fval"]))
                 if mod != obsv:
                     rep.disagree("Det.step ~ optimize loop (exit, deterministic run)", f"last iteration {k}: model (fc,msi,finished,u,fval)={mod} observed {obsv}; {tag}", case)
+                    break
+    return stats
+
+
+# ------------------------------------------------------------------------------------------------
+# runs in ANY noise mode replayed through the composed model Full.step (FullRun.lean)
+
+def full_extract(t):
+    x = ctl_extract(t)
+    nx = noisy_extract(t) if x is not None else None
+    if x is None or nx is None:
+        return None
+    ev = t["events"]
+    init_pairs, iters, cur = [], [], None
+    for k, e in ev:
+        if k == "CALL" and "exc" not in e:
+            if cur is None:
+                init_pairs.append({"u": enc_pt(e["u"]), "y": enc(e["ret"][0])})
+            elif e["rec"] and e["phase"] in ("search", "poll"):
+                cur["calls"].append((e["phase"], enc_pt(e["u"]), e["Xn"] != e["Xn_before"]))
+            elif e["rec"]:
+                cur["odd"] = f"recorded call #{e['k']} in phase {e['phase']} inside the loop"
+        elif k == "ITER":
+            cur = {"h": enc(e["sms"]), "searchU": [], "pollU": [], "calls": [], "thr_s": None, "start": e}
+            iters.append(cur)
+        elif cur is not None:
+            if k == "FILT" and e["site"] in ("search", "poll"):
+                if "U" not in e:
+                    cur["odd"] = "candidate set too large to be recorded"
+                elif e["site"] == "search":
+                    cur["searchU"] = enc_pts(e["U"])
+                else:
+                    if cur["pollU"]:
+                        cur["odd"] = "two poll candidate sets in one iteration"
+                    cur["pollU"] = enc_pts(e["U"])
+            elif k == "SRCH":
+                cur["thr_s"] = enc(e["thr"])
+    n = min(x["iters"], len(nx["iters"]))
+    iters = iters[:n]
+    orcs = []
+    for it, o, ni in zip(iters, x["outs"], nx["iters"]):
+        if it.get("odd"):
+            return {"skip": it["odd"]}
+        sc = [c for c in it["calls"] if c[0] == "search"]
+        pc = [c for c in it["calls"] if c[0] == "poll"]
+        q = {"h": it["h"], "searchU": it["searchU"], "pollU": it["pollU"], "searchPick": None, "searchVal": None,
+             "pollPicks": [c[1] for c in pc], "pollVals": [], "stallMesh": o["stallMesh"], "stallStop": o["stallStop"]}
+        if sc:
+            sv = ni.get("search")
+            if sv is None or sv["u"] != sc[0][1]:
+                return {"skip": "search evaluation without recorded estimates"}
+            q["searchPick"] = sc[0][1]
+            q["searchVal"] = {"y": sv["y"], "f": sv["f"], "sd": sv["sd"], "newRow": sc[0][2]}
+        pvals = ni.get("poll") or []
+        if len(pvals) != len(pc) or any(v["u"] != c[1] for v, c in zip(pvals, pc)):
+            return {"skip": "poll evaluations without recorded estimates"}
+        q["pollVals"] = [{"y": v["y"], "f": v["f"], "sd": v["sd"], "newRow": c[2]} for v, c in zip(pvals, pc)]
+        if it["thr_s"] is not None and o["zs"] and it["thr_s"] != o["thr"]:
+            return {"skip": "search and poll thresholds differ within an iteration"}
+        q["thr"] = o["thr"] if o["zs"] or it["thr_s"] is None else it["thr_s"]
+        if "reVals" in ni:
+            q["reVals"] = ni["reVals"]
+        orcs.append(q)
+    s0 = iters[0]["start"]
+    hdr = t["hdr"]
+    req = {"cmd": "full.replay",
+           "env": {"lb": [enc(v) for v in hdr["lb"]], "ub": [enc(v) for v in hdr["ub"]], "origLo": [enc(v) for v in hdr["orig_lb"]],
+                   "origHi": [enc(v) for v in hdr["orig_ub"]], "tol": enc(hdr["tol_mesh"])},
+           "opts": x["opts"], "tolFun": nx["tolFun"],
+           "init": {"pairs": init_pairs, "ns": nx["init"], "fc": x["init"]["fc"], "nRec": x["init"]["nRec"], "msi": x["init"]["msi"]},
+           "orcs": orcs}
+    if t["spec"]["cons"]:
+        _u0, _steps, _calls, cons_tbl, _problems = pipe_extract(t)
+        req["cons"] = [{"p": list(p), "v": v} for p, v in cons_tbl.items()]
+    return {"req": req, "iters": iters, "x": x, "nx": nx}
+
+
+def full_replay(ctx, rep, modes=("det", "auto", "decl", "he")):
+    """Every traced run (all noise modes) through Full.step: evaluated points, derived improvements, incumbent estimate, recording index,
+    counters and mesh per iteration."""
+    traces = [t for t in get_pool(ctx) if t["constructed"] and t["hdr"] is not None and t.get("final") and t["spec"]["mode"] in modes
+              and not t.get("ei_script") and not t.get("es_script") and not t.get("gp_faults") and not t.get("predict_faults") and not t.get("fault")]
+    items, skipped = [], {}
+    for t in traces:
+        d = full_extract(t)
+        if d is None:
+            skipped["no loop / non-finite estimates / non-dyadic tol_mesh"] = skipped.get("no loop / non-finite estimates / non-dyadic tol_mesh", 0) + 1
+        elif "skip" in d:
+            skipped[d["skip"]] = skipped.get(d["skip"], 0) + 1
+        else:
+            items.append((t, d))
+    res = ctx.driver.call_many([d["req"] for _, d in items])
+    stats = {"runs": 0, "iterations": 0, "evaluations": 0, "improvements_compared": 0, "by_mode": {}, "skipped": skipped}
+    for (t, d), r in zip(items, res):
+        sp = t["spec"]
+        tag = spec_tag(sp)
+        case = {"kind": "full_run", "spec": sp}
+        stats["runs"] += 1
+        stats["by_mode"][sp["mode"]] = stats["by_mode"].get(sp["mode"], 0) + 1
+        x, iters = d["x"], d["iters"]
+        for k, (st, it, o) in enumerate(zip(r["states"], iters, x["outs"])):
+            stats["iterations"] += 1
+            c, ns = st["ctl"], st["ns"]
+            if not st["searchFound"] or not st["pollFound"]:
+                rep.disagree("Full.step ~ evaluated points are rows of the filtered candidate sets", f"iteration {k}: an evaluated {'search' if not st['searchFound'] else 'poll'} point is not in the model's filtered set; {tag}", case)
+                break
+            obs_evals = [c_[1] for c_ in it["calls"]]
+            if st["newEvals"] != obs_evals:
+                rep.disagree("Full.step ~ sequence of evaluated points", f"iteration {k}: model evaluates {len(st['newEvals'])} points, run {len(obs_evals)}; {tag}", case)
+                break
+            stats["evaluations"] += len(obs_evals)
+            if o["zs"]:
+                stats["improvements_compared"] += len(o["zs"])
+                if st["zs"] != o["zs"]:
+                    rep.disagree("Full.outOf ~ _eval_improvement_ (q = 0.5: difference of the estimates)", f"iteration {k}: derived poll improvements {st['zs'][:4]} observed {o['zs'][:4]}; {tag}", case)
+                    break
+            if st["it"] != it["start"]["it"]:
+                rep.disagree("Full.iterOf ~ recording index", f"iteration {k}: model records at index {st['it']}, run's poll_iteration is {it['start']['it']}; {tag}", case)
+                break
+            if k < len(iters) - 1:
+                nxt = iters[k + 1]["start"]
+                mod = (c["fc"], c["nRec"], c["sc"], c["ss"], c["msi"], c["pollIter"], c["finished"], ns["u"], ns["yval"], ns["fval"], ns["fsd"])
+                obsv = (nxt["fc"], nxt["nrec"], nxt["sc"], nxt["ss"], nxt["msi"], nxt["it"], False, enc_pt(nxt["u"]), enc(nxt["yval"]), enc(nxt["fval"]), enc(nxt["fsd"]))
+                if mod != obsv:
+                    rep.disagree("Full.step ~ optimize loop", f"iteration {k}: model (fc,nRec,sc,ss,msi,iter,finished,u,yval,fval,fsd)={mod} observed {obsv}; {tag}", case)
                     break
     return stats
